@@ -81,6 +81,7 @@ type entry struct {
 
 type model struct {
 	id, oname string
+	nested    map[string][]byte // files planted below subdirectories of the logs directory (never the logger's to touch)
 	level     int
 	rotation  bool
 	keep      int
@@ -206,6 +207,15 @@ func (m *model) verify(home string, when string) error {
 			return fmt.Errorf("%s: retention did not remove %s (%s)", when, name, why)
 		}
 		return fmt.Errorf("%s: unexpected entry %q in the logs directory (current log file by the model: %s)", when, name, m.cur)
+	}
+	for rel, want := range m.nested {
+		got, err := os.ReadFile(filepath.Join(dir, rel))
+		if err != nil {
+			return fmt.Errorf("%s: %s, a file in a subdirectory of the logs directory, is gone (%v): retention removes files of the logs directory itself, nothing below it", when, rel, err)
+		}
+		if !bytes.Equal(got, want) {
+			return fmt.Errorf("%s: %s in a subdirectory of the logs directory was altered", when, rel)
+		}
 	}
 	var all []found
 	names := make([]string, 0, len(actual))
@@ -513,6 +523,23 @@ func runHist(c HistCase) *pbt.Result {
 					panic(err)
 				}
 				m.files[name] = &mfile{isDir: true}
+				// what lies below the logs directory is not the logger's: an archived copy with the logger's own prefix
+				// and a date far beyond keep-days, one and two levels down
+				old := fmt.Sprintf("%s-%s-%s.log", m.id, m.oname, ymd(today-int64(m.keep)-40-int64(op.Off)))
+				for _, rel := range []string{filepath.Join(name, old), filepath.Join(name, "q1", old)} {
+					full := filepath.Join(logsDir(home), rel)
+					if err := os.MkdirAll(filepath.Dir(full), 0o755); err != nil {
+						panic(err)
+					}
+					content := []byte("archived " + rel + "\n")
+					if err := os.WriteFile(full, content, 0o644); err != nil {
+						panic(err)
+					}
+					if m.nested == nil {
+						m.nested = map[string][]byte{}
+					}
+					m.nested[rel] = content
+				}
 			} else {
 				content := []byte(filler(op.Size, i) + "\n")
 				if err := os.WriteFile(p, content, 0o644); err != nil {
